@@ -39,14 +39,18 @@ func (is Instructions) Pass(pass int) bool {
 }
 
 // Assemble the instructions into an Opcode string
+//
+// Instructions never shrink from one pass to the next, so every pass
+// which changes a position extends at least one more jump and the
+// loop finishes within len(is)+2 passes.
 func (is Instructions) Assemble() string {
-	for i := 0; i < 10; i++ {
+	for i := 0; i <= len(is)+2; i++ {
 		changed := is.Pass(i)
 		if !changed {
 			goto done
 		}
 	}
-	panic("Failed to assemble after 10 passes")
+	panic("Failed to assemble: positions did not converge")
 done:
 	out := make([]byte, 0, 3*len(is))
 	for _, i := range is {
@@ -375,11 +379,14 @@ type OpArg struct {
 	pos
 	Op  vm.OpCode
 	Arg uint32
+	// extended is set once a jump has needed an EXTENDED_ARG: it
+	// keeps it from then on so that the assembler passes converge
+	extended bool
 }
 
-// Uses 1 byte in the output stream
+// Uses 3 or 6 bytes in the output stream
 func (o *OpArg) Size() uint32 {
-	if o.Arg <= 0xFFFF {
+	if o.Arg <= 0xFFFF && !o.extended {
 		return 3 // Op Arg1 Arg2
 	} else {
 		return 6 // Extend Arg1 Arg2 Op Arg3 Arg4
@@ -389,7 +396,7 @@ func (o *OpArg) Size() uint32 {
 // Output
 func (o *OpArg) Output() []byte {
 	out := []byte{byte(o.Op), byte(o.Arg), byte(o.Arg >> 8)}
-	if o.Arg > 0xFFFF {
+	if o.Arg > 0xFFFF || o.extended {
 		out = append([]byte{byte(vm.EXTENDED_ARG), byte(o.Arg >> 16), byte(o.Arg >> 24)}, out...)
 	}
 	return out
@@ -430,6 +437,9 @@ type JumpAbs struct {
 // Set the Arg from the Jump Label
 func (o *JumpAbs) Resolve() {
 	o.OpArg.Arg = o.Dest.Pos()
+	if o.OpArg.Arg > 0xFFFF {
+		o.OpArg.extended = true
+	}
 }
 
 // A relative JUMP with destination label
@@ -440,18 +450,27 @@ type JumpRel struct {
 }
 
 // Set the Arg from the Jump Label
+//
+// The position of Dest is the one from the previous pass while the
+// jump itself has already moved in this one, so it can look as if it
+// were behind us: in that case this pass changes positions and
+// another one follows.
 func (o *JumpRel) Resolve() {
-	currentSize := o.Size()
-	currentPos := o.Pos() + currentSize
-	if o.Dest.Pos() < currentPos {
+	if o.Dest.Number() < o.Number() {
 		panic("JUMP_FORWARD can't jump backwards")
 	}
-	o.OpArg.Arg = o.Dest.Pos() - currentPos
-	if o.Size() != currentSize {
-		// FIXME There is an awkward moment where jump forwards is
-		// between 0x1000 and 0x1002 where the Arg oscillates
-		// between 2 and 4 bytes
-		panic("FIXME compile: JUMP_FOWARDS size changed")
+	for {
+		end := o.Pos() + o.Size()
+		arg := uint32(0)
+		if o.Dest.Pos() > end {
+			arg = o.Dest.Pos() - end
+		}
+		o.OpArg.Arg = arg
+		if arg <= 0xFFFF || o.OpArg.extended {
+			return
+		}
+		// needs an EXTENDED_ARG which moves the end of the instruction
+		o.OpArg.extended = true
 	}
 }
 
